@@ -238,6 +238,9 @@ verdict(int rc)
     }
 }
 
+static char dbg_first[4096];
+static bool alignment_matters;   /* set by the emitters that run twice with the payload at different addresses */
+
 static void
 emit_line(int rc, bool with_seq)
 {
@@ -245,8 +248,10 @@ emit_line(int rc, bool with_seq)
         printf("rc="); print_rc0(rc);
         if (with_seq) printf(" seq=%u", (unsigned)p.session.sequence);
         printf(" wire="); print_reply();
+        if (alignment_matters) printf(" depends-on-payload-alignment(first=%s)", dbg_first);
         if (v == 0) printf(" ## ");
     }
+    alignment_matters = false;
 }
 
 static int
@@ -376,7 +381,23 @@ harness_op(int argc, char **argv)
             size_t len; unsigned char *d = parse_hex(argv[4], &len);
             bool w16 = strcmp(argv[1], "w16") == 0;
             if (!d || !(w16 || strcmp(argv[1], "w8") == 0) || len != n * (w16 ? 2 : 1)) { free(d); printf("bad-op"); return; }
+            /* what goes on the wire must not depend on where the caller's payload lies in memory: emit once from a
+             * shifted copy (odd address for octets, 2 mod 4 for words; exact-size block), take that back, emit again */
+            size_t shift = w16 ? 2 : 1;
+            unsigned char *sh = malloc(len + shift);
+            memcpy(sh + shift, d, len);
+            uint16_t seq0 = p.session.sequence;
+            size_t room0 = room;
+            int rc1 = w16 ? regp_req_write16(&p, a, n, (const uint16_t *)(void *)(sh + shift)) : regp_req_write8(&p, a, n, sh + shift);
+            size_t n1 = nout - mark;
+            unsigned char *w1 = malloc(n1 ? n1 : 1);
+            if (n1) memcpy(w1, out + mark, n1);
+            nout = mark; p.session.sequence = seq0; room = room0;
+            free(sh);
             rc = w16 ? regp_req_write16(&p, a, n, (const uint16_t *)(void *)d) : regp_req_write8(&p, a, n, d);
+            alignment_matters = rc1 != rc || n1 != nout - mark || (n1 && memcmp(w1, out + mark, n1) != 0);
+            { size_t q = 0; q += snprintf(dbg_first, sizeof dbg_first, "rc%d:", rc1); for (size_t k = 0; k < n1 && q + 3 < sizeof dbg_first; k++) q += snprintf(dbg_first + q, 3, "%02x", w1[k]); }
+            free(w1);
             free(d);
         }
         emit_line(rc, true);
@@ -414,7 +435,19 @@ harness_op(int argc, char **argv)
         else {
             size_t len; unsigned char *d = parse_hex(argv[5], &len);
             if (!d || len != n * (mem16 ? 2 : 1)) { free(d); printf("bad-op"); return; }
+            size_t shift = mem16 ? 2 : 1;
+            unsigned char *sh = malloc(len + shift);
+            memcpy(sh + shift, d, len);
+            size_t room0 = room;
+            int rc1 = regp_resp_ack(&p, &f, sh + shift, n);
+            size_t n1 = nout - mark;
+            unsigned char *w1 = malloc(n1 ? n1 : 1);
+            if (n1) memcpy(w1, out + mark, n1);
+            nout = mark; room = room0;
+            free(sh);
             rc = regp_resp_ack(&p, &f, d, n);
+            alignment_matters = rc1 != rc || n1 != nout - mark || (n1 && memcmp(w1, out + mark, n1) != 0);
+            free(w1);
             free(d);
         }
         emit_line(rc, false);
